@@ -242,6 +242,14 @@ pub fn gen_history_mode(seed: u64, with_faults: bool, session: bool) -> History 
         ops.push(Op::plain(Req::Load("m_patch.jsonnet".into())));
         ops.push(Op::plain(Req::Load("m_fn.jsonnet".into())));
     }
+    // a second directed family: one function called several times with different CODE arguments, all loaded under the
+    // same virtual name <tla:k>; most of them fail inside that code, so each diagnostic quotes its own text
+    let tla_family = g.chance(1, 4);
+    let tla_fn_handle = ops.len() as u32;
+    if tla_family {
+        files.insert("t_fn.jsonnet".into(), b"function(k, pre=std.length(std.range(0, 3))) [pre, k]".to_vec());
+        ops.push(Op::plain(Req::Load("t_fn.jsonnet".into())));
+    }
     // loads first for a random subset, others interleaved later
     o.shuffle(&mut srcs);
     let upfront = 1 + o.usize_below(srcs.len());
@@ -254,7 +262,19 @@ pub fn gen_history_mode(seed: u64, with_faults: bool, session: bool) -> History 
         let h = o.below(16) as u32;
         let req = match o.below(24) {
             0..=9 => Req::Eval { thunk: h, keep: o.chance(1, 2) },
-            10 | 11 => Req::Top { thunk: h, tla: if o.chance(1, 2) { vec![] } else { vec![("k".into(), false, "shallow".into())] }, keep: o.chance(1, 2) },
+            10 | 11 => {
+                // top-level arguments: none, a string, or CODE - several different texts are loaded under the same
+                // virtual name <tla:k> during one history, some of them failing with a diagnostic that quotes the source
+                let tla = match o.below(8) {
+                    0 | 1 => vec![],
+                    2 | 3 => vec![("k".to_string(), false, "shallow".to_string())],
+                    4 => vec![("k".to_string(), true, "\"sha\" + \"llow\"".to_string())],
+                    5 => vec![("k".to_string(), true, "local xs = [\"arr\", \"deep\"];\nxs[7]".to_string())],
+                    6 => vec![("k".to_string(), true, "\n\n  error \"tla says no\"".to_string())],
+                    _ => vec![("k".to_string(), true, "local pick(n) = if n > 0 then \"nested\" else 1 + \"x\" - 2; pick(0)".to_string())],
+                };
+                Req::Top { thunk: h, tla, keep: o.chance(1, 2) }
+            }
             12 => Req::Call { thunk: h, pos: vec![], named: vec![("cfg".into(), o.below(16) as u32)], keep: o.chance(1, 2) },
             13 => {
                 if o.chance(1, 2) {
@@ -289,6 +309,26 @@ pub fn gen_history_mode(seed: u64, with_faults: bool, session: bool) -> History 
         };
         ops.push(Op::plain(req));
     }
+    if tla_family {
+        ops.retain(|op| !matches!(op.req, Req::DropThunk(_)));
+        let codes = [
+            "local xs = [\"arr\", \"deep\"];\nxs[7]",
+            "\n\n  error \"tla says no\"",
+            "local pick(n) = if n > 0 then \"nested\" else 1 + \"x\" - 2; pick(0)",
+            "{ a: 1, b: self.a + 1 }",
+            "assert 1 == 2 : \"tla assert\"; 5",
+            "std.foldl(function(a, b) a + b, [1, 2, \"three\"], 0)",
+        ];
+        let n = 2 + o.usize_below(3);
+        let first_free = if merge_family { 4 } else { 1 };
+        let mut at = first_free.min(ops.len());
+        for _ in 0..n {
+            let code = *o.pick(&codes);
+            at = at + o.usize_below(ops.len() - at + 1);
+            ops.insert(at.min(ops.len()), Op::plain(Req::Top { thunk: tla_fn_handle, tla: vec![("k".into(), true, code.to_string())], keep: false }));
+            at += 1;
+        }
+    }
     if merge_family {
         ops.retain(|op| !matches!(op.req, Req::DropThunk(_)));
         // sprinkle the family's requests over the history: evaluate the operands (in either order, maybe not at all),
@@ -305,7 +345,7 @@ pub fn gen_history_mode(seed: u64, with_faults: bool, session: bool) -> History 
         if o.chance(1, 2) {
             fam.push(Req::Call { thunk: 2, pos: vec![], named: vec![("patch".into(), 1), ("base".into(), 0)], keep: false });
         }
-        let mut at = 3;
+        let mut at = if tla_family { 4 } else { 3 };
         for r in fam {
             at = at + o.usize_below(ops.len() - at + 1);
             ops.insert(at.min(ops.len()), Op::plain(r));
